@@ -227,25 +227,72 @@ def site_contexts(prog, crate, env):
 
 
 def write_value_alternatives(prog, op, ns):
-    """for a storage write op: list of (base, delta) of the value written; for `update` the closure
-    is evaluated with its parameter standing for the stored value."""
-    if op["op"] == "save":
-        val = op["args"][-1]
-        return struct_deltas(val)
-    if op["op"] == "update":
-        clo = op["args"][-1]
-        res = closure_result(prog, clo, params={2: ("stored", ns)})
-        if res is None:
+    """for a storage write op: list of (base, delta) of the value written; `update(closure)` is read
+    as save(closure(load()?)?) (engine.analysis._normalise_op).  The value is taken in the first
+    inlining form in which it is `loaded value + field updates` or a fresh aggregate."""
+    from engine.analysis import forms
+    v = op.get("value")
+    if v is None:
+        if op["op"] == "save":
+            v = op["args"][-1]
+        else:
             return None
-        alts = []
-        for r in (res[1] if res[0] == "phi" else (res,)):
-            if r[0] == "agg" and r[2] == "Ok":
-                alts += struct_deltas(r[3][0][2])
-            elif r[0] == "agg" and r[2] == "Err":
+    first = None
+    for f in forms(prog, v, 2, op.get("assumptions", ())):
+        alts = [(base, _drop_identity(base, d)) for base, d in struct_deltas(f)]
+        if first is None:
+            first = alts
+        if all(base[0] == "agg" or _loadish(base) for base, _ in alts):
+            return alts
+    return first
+
+
+def _drop_identity(base, d):
+    """`x.f = x.f` (e.g. `cfg.f = opt.unwrap_or(cfg.f)` in the world opt = None) changes nothing"""
+    out = {}
+    for path, val in d.items():
+        t = base
+        for n in path:
+            t = ("field", t, n)
+        if norm(val) == norm(t):
+            continue
+        out[path] = val
+    return out
+
+
+def written_agg(prog, op):
+    """the value written by a storage op in the first inlining form in which it is a fresh aggregate
+    (a constructor helper such as `initial_config(..)?` is looked through); else the value as written."""
+    from engine.analysis import forms
+    v = op.get("value")
+    if v is None:
+        v = op["args"][-1]
+    for f in forms(prog, v, 2, op.get("assumptions", ())):
+        if f[0] == "agg":
+            return f
+    return v
+
+
+def _loadish(base):
+    b = unwrap_payload(base)
+    return b[0] == "call" and b[1].startswith("cw_storage_plus::") and b[1].split("::")[-1] in ("load", "may_load")
+
+
+def effective_delta(prog, base, d, ns, crate):
+    """the fields of the stored struct that (base, d) changes, as {path: new value}: for `loaded
+    value + updates` that is d; for a fresh aggregate (struct-update syntax `S { f: v, ..loaded }`)
+    the fields whose value is not the same field of the loaded value.  None if the base is neither."""
+    if is_stored_base(prog, base, ns, crate):
+        return dict(d)
+    if base[0] == "agg":
+        out = {}
+        for _, n, v in base[3]:
+            if v[0] == "field" and v[2] == n and is_stored_base(prog, v[1], ns, crate):
                 continue
-            else:
-                return None
-        return alts
+            out[(n,)] = v
+        for path, val in d.items():
+            out[path] = val
+        return out
     return None
 
 
